@@ -93,7 +93,9 @@ SPEC = dict(
     ],
     level_text="The model transcribes BOTH attribute walks as coded (pre-scan hasMessageIntegrity in handleDatagram: stops at FINGERPRINT; "
                "QXmppStunMessage::decode: verifies the first MESSAGE-INTEGRITY, stops successfully at FINGERPRINT) and the theorems are about "
-               "their conjunction (accepted_means_verified, mi_after_fingerprint_counts_as_absent, decode_alone_never_looks_behind_fingerprint). "
+               "their conjunction (accepted_means_verified, mi_after_fingerprint_counts_as_absent, decode_alone_never_looks_behind_fingerprint, "
+               "decode_never_misses_mi_behind_prescan; decode's own final missing-integrity test of repo commit 80bab8b is modelled: it exempts "
+               "Error and Indication classes, for which the pre-scan stays the only guard). "
                "Theorems, for EVERY state (STUN servers configured or not, closed or not) and every unauthenticated STUN datagram (no protecting "
                "MESSAGE-INTEGRITY - none, behind a FINGERPRINT, swallowed -, wrong key, the session's other password, truncated attribute; any "
                "attribute layout, class, source, user name, role attribute, "
